@@ -261,8 +261,23 @@ func tunnelOrigin() (string, func()) {
 	return l.Addr().String(), func() { l.Close() }
 }
 
+// respWait is generous so that a loaded machine never produces a false
+// "no response"; once several responses have gone missing in one run (the
+// tree under test is evidently broken and witnesses are recorded) the rest
+// of the run uses a short wait so that the harness still finishes.
+var (
+	missing  int
+	respWait = 4 * time.Second
+)
+
+func noteMissing() {
+	missing++
+	if missing >= 3 {
+		respWait = 400 * time.Millisecond
+	}
+}
+
 const (
-	respWait       = 4 * time.Second
 	respWaitHijack = 300 * time.Millisecond
 	actWait        = 3 * time.Second
 	closeWait      = 4 * time.Second
@@ -338,6 +353,9 @@ func (e *env) playConn(addr string, toks []reqTok, base int, roots *tls.Config) 
 		}
 		res, err := http.ReadResponse(br, &http.Request{Method: method})
 		if err != nil {
+			if ne, ok := err.(net.Error); ok && ne.Timeout() {
+				noteMissing()
+			}
 			dead = true
 			break
 		}
@@ -602,7 +620,7 @@ func main() {
 		emit("inner2", []string{"K", "mPOPk", "gPOPk", t, "gPFPk"})
 	}
 	// 4. random scripts: 1..3 connections x 1..5 requests
-	nr := 250
+	nr := 700
 	if cfg.Thorough() {
 		nr = 6000
 	}
